@@ -59,6 +59,16 @@ pub fn check_input(ctx: &mut Ctx, b: &[u8], wsh: bool, class: &'static str, ops:
     if class != "canonical" {
         ctx.obs("precondition.held_noncanonical");
     }
+    // history: between the first parse and the re-parse, half of the cases parse something else on the
+    // same thread — the same bytes flagged with the other byte order (identical raw fields, read the
+    // other way round) and a dialect cousin of the input. A parse is a function of its input alone.
+    if b.len() % 2 == 0 {
+        let other = crate::gen_msg::other_byte_order(b, wsh);
+        let _ = guarded(|| dlt_message(&other, None, wsh).map(|(r, _)| r.len()));
+        let other2 = crate::gen_msg::other_byte_order(&b2, storage);
+        let _ = guarded(|| dlt_message(&other2, None, storage).map(|(r, _)| r.len()));
+        ctx.obs("history.other_byte_order_parsed_in_between");
+    }
     let res = guarded(|| dlt_message(&b2, None, storage).map(|(r, pm)| (r.len(), pm)));
     let discr = format!("{}:{}", pk, if be { "be" } else { "le" });
     match res {
@@ -112,7 +122,7 @@ impl Monitor for M {
 
     fn describe(&self, ctx: &Ctx) -> J {
         super::describe(
-            "inputs of the C02 decode classes with emphasis on dialect (35 %: reserved codings, struct/reserved type-info bits, TYLE on unsized kinds, ids with embedded NUL, missing terminators, any version) and structure-aware mutants (35 %), plus canonical (15 %, incl. the systematic layer: all MSIN bytes, flag sets, kinds), long-field attacks, header-shaped random and arbitrary bytes; 1/6 also in the other storage mode. For every input that yields a message the precondition (re-serialised length == declared length) is evaluated and, when it holds, the re-serialisation is parsed and serialised again. distinct = (class, payload kind, byte order, precondition held, first operator, message type bits); non-trivial = the parser returned a message",
+            "inputs of the C02 decode classes with emphasis on dialect (35 %: reserved codings, struct/reserved type-info bits, TYLE on unsized kinds, ids with embedded NUL, missing terminators, any version) and structure-aware mutants (35 %), plus canonical (15 %, incl. the systematic layer: all MSIN bytes, flag sets, kinds), long-field attacks, header-shaped random and arbitrary bytes; 1/6 also in the other storage mode. For every input that yields a message the precondition (re-serialised length == declared length) is evaluated and, when it holds, the re-serialisation is parsed and serialised again; in half of the cases the same bytes flagged with the other byte order are parsed in between (call history on one thread). distinct = (class, payload kind, byte order, precondition held, first operator, message type bits); non-trivial = the parser returned a message",
             &["crashes while parsing/serialising arbitrary input belong to C03 and are only counted here"],
             &[("precondition.held", super::scaled(ctx, 100000)), ("precondition.held_noncanonical", super::scaled(ctx, 10000)), ("stable.ok.networktrace", 1000), ("stable.ok.verbose", 1000), ("stable.ok.control", 1000), ("stable.ok.nonverbose", 1000)],
         )
